@@ -19,7 +19,7 @@ RULE = ("points in all quadrants / octants, on the axes, at the origin, with sig
         "(3) projections have the class given by the map and marginal contents; wrong dimensionality is refused; "
         "non-trivial = >= 1 point on an axis or with a zero coordinate and >= 3 entry paths compared; distinct by hash of (class, bins, points)")
 ASSUMPTIONS = ["points closer than 1e-9 to a bin edge are not judged against the math-module bin (only for path consistency)",
-               "CylindricalSurfaceHistogram is exercised through the projection of cylindrical histograms only (known finding cylindrical_surface.cluster)"]
+               "the default radius of cylindrical_surface() is the largest point radius (as chosen by the repair of the cylinder-surface cluster)"]
 
 TWO_PI = 2 * math.pi
 
@@ -43,6 +43,8 @@ def true_coords(kind, p):
         return [math.atan2(rho, z), phi]
     if kind == "cylindrical":
         return [rho, phi, z]
+    if kind == "cylindrical_surface":
+        return [phi, z]
     raise ValueError(kind)
 
 
@@ -73,6 +75,10 @@ def inverse_ok(kind, p, t) -> bool:
     if kind == "cylindrical":
         rho, phi, zz = t
         return rho >= 0 and 0 <= phi <= TWO_PI and abs(rho * math.cos(phi) - x) <= tol and abs(rho * math.sin(phi) - y) <= tol and zz == z
+    if kind == "cylindrical_surface":
+        phi, zz = t
+        rho = math.hypot(x, y)
+        return 0 <= phi <= TWO_PI and abs(rho * math.cos(phi) - x) <= tol and abs(rho * math.sin(phi) - y) <= tol and zz == z
     return True
 
 
@@ -98,10 +104,11 @@ def one_case(ctx, index, rng: random.Random):
     from physt import special_histograms as sp
 
     rec = ctx.rec
-    kind = rng.choice(["polar", "radial", "radial3", "azimuthal", "spherical", "spherical_surface", "cylindrical"])
+    kind = rng.choice(["polar", "radial", "radial3", "azimuthal", "spherical", "spherical_surface", "cylindrical", "cylindrical_surface"])
     dim = 2 if kind in ("polar", "radial", "azimuthal") else 3
     klass = {"polar": sp.PolarHistogram, "radial": sp.RadialHistogram, "radial3": sp.RadialHistogram, "azimuthal": sp.AzimuthalHistogram,
-             "spherical": sp.SphericalHistogram, "spherical_surface": sp.SphericalSurfaceHistogram, "cylindrical": sp.CylindricalHistogram}[kind]
+             "spherical": sp.SphericalHistogram, "spherical_surface": sp.SphericalSurfaceHistogram, "cylindrical": sp.CylindricalHistogram,
+             "cylindrical_surface": sp.CylindricalSurfaceHistogram}[kind]
     mkind = "radial" if kind == "radial3" else kind
     n = rng.randint(1, 30)
     pts = gen_points(rng, n, dim)
@@ -165,6 +172,8 @@ def one_case(ctx, index, rng: random.Random):
                 make = lambda data, **k: sp.spherical(data.copy(), radial_bins=r_edges.copy(), theta_bins=theta_n, phi_bins=phi_n, **k)
             elif kind == "spherical_surface":
                 make = lambda data, **k: sp.spherical_surface(data.copy(), theta_bins=theta_n, phi_bins=phi_n, **k)
+            elif kind == "cylindrical_surface":
+                make = lambda data, **k: sp.cylindrical_surface(data.copy(), phi_bins=phi_n, z_bins=z_edges.copy(), **k)
             else:
                 make = lambda data, **k: sp.cylindrical(data.copy(), rho_bins=r_edges.copy(), phi_bins=phi_n, z_bins=z_edges.copy(), **k)
             a = make(pts, **kw)
@@ -309,7 +318,7 @@ def cylsurf_case(ctx, index, rng: random.Random):
     rec = ctx.rec
     rec.mon("C15.paths")
     pts = gen_points(rng, rng.randint(2, 10), 3)
-    which = rng.choice(["facade", "transform", "construct"])
+    which = rng.choice(["facade", "transform", "construct", "radius"])
     try:
         with warnings.catch_warnings():
             warnings.simplefilter("ignore")
@@ -317,11 +326,17 @@ def cylsurf_case(ctx, index, rng: random.Random):
                 sp.cylindrical_surface(pts, phi_bins=4, z_bins=np.array([-4.0, 0.0, 4.0]))
             elif which == "transform":
                 t = sp.CylindricalSurfaceHistogram.transform(pts)
+            elif which == "radius":
+                h = sp.cylindrical_surface(pts, phi_bins=4, z_bins=np.array([-4.0, 0.0, 4.0]))
+                want = float(np.max(np.hypot(pts[:, 0], pts[:, 1])))
+                if not isinstance(h.radius, (int, float)) or abs(float(h.radius) - want) > 1e-12 * (1 + want):
+                    rec.fail(monitor="C15.paths", op="cylindrical_surface/radius", symptom="default radius of the cylinder surface is not the radius bounding the points", diff=["radius"],
+                             detail={"radius": repr(h.radius), "expected": want})
             else:
                 sp.CylindricalSurfaceHistogram([np.array([0.0, 3.0, 6.3]), np.array([-1.0, 1.0])])
     except Exception as e:
         rec.fail(monitor="C15.paths", op=f"cylindrical_surface/{which}", symptom=f"cylinder-surface histogram unusable: {type(e).__name__}", diff=["raised"],
-                 mechanism="cylindrical_surface.cluster", detail={"error": str(e)[:200], "which": which})
+                 detail={"error": str(e)[:200], "which": which})
     rec.case(["cylsurf", which, pts.tolist()], True, cls=f"cylindrical_surface/{which}")
 
 
